@@ -38,6 +38,9 @@ ASSUME ConstructionsSound == \A p \in Pols \cup {UnanimityOf(H) : H \in {X \in S
 MCInit == Init /\ nops = 0
 MCDeal == \E p \in Pols : ValidPol(p) /\ \E x \in F : \E r \in Cols(NCols(MSPOf(p).M), x) :
             Deal(p, MSPOf(p).M, MSPOf(p).lab, r) /\ nops' = nops + 1
+MCDKG == \E p \in Pols : ValidPol(p) /\ LET m == MSPOf(p) IN
+            \E c \in [Holders(m.lab) -> UNION {Cols(NCols(m.M), x) : x \in {1, 3}}] :
+              DKG(p, m.M, m.lab, c) /\ nops' = nops + 1
 MCR1 == \E S \in SUBSET Holders(ep.lab) : S # {} /\ Cardinality(S) >= 2 /\ Spans(ep.M, ep.lab, S) /\
           LET u == MSPOf(UnanimityOf(S)) IN
           \E z \in [S -> Cols(NCols(u.M), 0)] : RedistR1(S, u.M, u.lab, z) /\ nops' = nops + 1
@@ -50,6 +53,7 @@ MCR2 == \E p \in Pols : ValidPol(p) /\
                IN RedistR2(p, m.M, m.lab, cS, cU, d) /\ UNCHANGED nops
 MCR3 == RedistR3 /\ UNCHANGED nops
 MCNext == \/ (nops < MaxOps /\ ep.live = FALSE /\ MCDeal)
+          \/ (nops < MaxOps /\ ep.live = FALSE /\ MCDKG)
           \/ (nops < MaxOps /\ ep.live /\ pend.stage = 0 /\ MCR1)
           \/ (pend.stage = 1 /\ MCR2)
           \/ (pend.stage = 2 /\ MCR3)
@@ -62,6 +66,19 @@ MixedValue(S, old) ==      \* old \subseteq S uses prevEp shares
   LET c == CoeffsFor(ep.M, ep.lab, S)
       sh == [i \in S |-> IF i \in old THEN prevEp.sh[i] ELSE ep.sh[i]]
   IN ReconstructsTo(ep.M, ep.lab, sh, S, c)
+\* signing algebra: for every qualified quorum (of size >= 2), every challenge, nonces from RSub and zero columns from Cols,
+\* the aggregated signature of honest partial responses verifies under the group public key
+SignAlgebra ==
+  ep.live => \A Qm \in SUBSET Holders(ep.lab) : (Cardinality(Qm) >= 2 /\ Spans(ep.M, ep.lab, Qm)) =>
+    LET u == MSPOf(UnanimityOf(Qm))
+        cS == CoeffsFor(ep.M, ep.lab, Qm)
+        cU == CoeffsFor(u.M, u.lab, Qm)
+    IN \A e \in F : \A z \in [Qm -> Cols(NCols(u.M), 0)] :
+         LET a == [i \in Qm |-> AdditiveKeyShare(Qm, cS, cU, u.M, u.lab, z, i)]
+             k == [i \in Qm |-> (i + 1) % Q]
+             s == [i \in Qm |-> PartialResponse(k[i], e, a[i])]
+         IN /\ SumOver(a, Qm) = x0
+            /\ SchnorrVerifies(SumOver(k, Qm), SumOver(s, Qm), e, x0)
 QualifiedReconstruct ==
   ep.live => \A S \in SUBSET Holders(ep.lab) : (S # {} /\ Spans(ep.M, ep.lab, S)) =>
                 ReconstructsTo(ep.M, ep.lab, ep.sh, S, CoeffsFor(ep.M, ep.lab, S)) = x0
